@@ -74,10 +74,10 @@ def main():
         corpus = json.load(f)
     res = {"lang": "python", "version": sys.version.split()[0], "env": [], "obs": [], "raw": ""}
     for cls in ("env", "obs"):
-        for b64 in corpus.get(cls, []):
+        for b64 in (corpus.get(cls) or []):
             res[cls].append(run_env(mod, base64.b64decode(b64)))
     raw = []
-    for b64 in corpus.get("raw", []):
+    for b64 in (corpus.get("raw") or []):
         blob = base64.b64decode(b64)
         try:
             raw.append("1" if mod.is_lfs_envelope(blob) else "0")
